@@ -179,17 +179,25 @@ Proof. exact @convert_scalar_type. Qed.
 Theorem C02_convert_const_scalar : forall A (C : Car A) a t, registered t = true -> t <> fst a ->
   convert_const_scalar C a t = (v <- store C (base_of t) (getf64 C (snd a)) ;; Val (t, v)).
 Proof. exact @convert_const_scalar_spec. Qed.
-(* known findings: the constant types cannot be constructed / converted to; ConvertMagicScalar returns the receiver;
-   the concrete ABS looks at the receiver's previous value *)
+(* known findings: the constant types cannot be constructed / converted to; ConvertMagicScalar returns the receiver *)
 Theorem C02_new_const_scalar_refuted : forall A (C : Car A) t x, is_const t = true -> new_const_scalar C t x = Panic.
 Proof. exact @new_const_scalar_refuted. Qed.
 Theorem C02_convert_const_scalar_refuted : forall A (C : Car A) a t, is_const t = true -> t <> fst a -> convert_const_scalar C a t = Panic.
 Proof. exact @convert_const_scalar_refuted. Qed.
 Theorem C02_convert_magic_scalar_refuted : forall A (C : Car A) a t r, convert_magic_scalar C a t = Val r -> r = a.
 Proof. exact @convert_magic_scalar_refuted. Qed.
-Theorem C02_concrete_ABS_refuted : forall sp,
-  ABS_ (CX sp) TFloat64 (VF (Fin 0)) (VF (Fin (-3))) = Val (VF (Fin (-3))).
-Proof. exact ABS_refuted. Qed.
+(* concrete ABS: since fix 2fc8894 in /repo it is |x| of the ARGUMENT for every receiver type and every previous
+   value [cold] of the receiver (the retired finding F-ABS-CONCRETE; its witness is kept as a regression input) *)
+Theorem C02_concrete_ABS : forall sp t cold x, fty t -> ABS_ (CX sp) t cold (VF (Fin x)) = Val (VF (Fin (Rabs x))).
+Proof. exact ABS_named. Qed.
+Theorem C02_concrete_ABS_int : forall A (C : Car A) t cold x, int_ty t -> wrap (kbits t) x = x ->
+  ABS_ C t cold (VI x) = Val (VI (wrap (kbits t) (Z.abs x))).
+Proof. exact @ABS_int. Qed.
+Theorem C02_concrete_ABS_is_Abs : forall A (C : Car A) t cold a, ABS_ C t cold a = abs_ C t (t, a).
+Proof. exact @ABS_is_abs. Qed.
+Theorem C02_concrete_ABS_regression : forall sp,
+  ABS_ (CX sp) TFloat64 (VF (Fin 0)) (VF (Fin (-3))) = Val (VF (Fin 3)).
+Proof. exact ABS_regression. Qed.
 
 Example C02_conv_nonvacuous : forall sp,
   ctoZ (CX sp) (clit (CX sp) L0) = Some 0%Z /\ registered TInt8 = true /\ is_const TCInt8 = true /\ TCInt8 <> fst (TFloat64, VF (Fin 3)).
